@@ -233,6 +233,15 @@ impl Clients {
         }
     }
 
+    /// Verification hook: runs `f` while holding the registry's write lock for the shard of
+    /// `endpoint_id` -- the lock `register` / `unregister` of any endpoint in that shard hold --
+    /// so that a harness can issue requests against a contended registry. Inserts nothing.
+    #[cfg(iroh_verif)]
+    pub fn verif_with_entry_locked<R>(&self, endpoint_id: EndpointId, f: impl FnOnce() -> R) -> R {
+        let _entry = self.0.clients.entry(endpoint_id);
+        f()
+    }
+
     /// Verification hook: the registry's internal shape (per endpoint the inactive connections in
     /// stored order followed by the active one, and the sent-to relation), used only to tell
     /// implementation states apart during state-space exploration.
